@@ -165,6 +165,15 @@ def decParams : Dec (Option Bytes × Option Bytes) := fun bs =>
     | none => none
   | none => none
 
+/-- the token argument a manager type requires: none for the native type, some token for
+    lock/unlock, some ESDT for mint/burn -/
+def tokenOk (implType : Nat) (token : Option Bytes) : Bool :=
+  if implType == 0 then token.isNone
+  else if implType == 2 || implType == 3 then token.isSome
+  else match token with
+    | some t => tokOfBytes t != none
+    | none => false
+
 def init (service : Bytes) (implType : Nat) (tokenId : Bytes) (operator : Option Bytes)
     (token : Option Bytes) : Except Err (State × List Ev) :=
   if Gateway.isZeroAddr service then .error .zeroAddress else
@@ -172,13 +181,7 @@ def init (service : Bytes) (implType : Nat) (tokenId : Bytes) (operator : Option
   let op := operator.getD zeroAddr
   let (s1, e1) := addRole st0 op FLOW_LIMITER_OPERATOR
   let (s2, e2) := addRole s1 service FLOW_LIMITER_OPERATOR
-  let okTok : Bool :=
-    if implType == 0 then token.isNone
-    else if implType == 2 || implType == 3 then token.isSome
-    else match token with
-      | some t => tokOfBytes t != none
-      | none => false
-  if !okTok then .error .invalidTokenAddress else
+  if !tokenOk implType token then .error .invalidTokenAddress else
   .ok ({ s2 with tokenIdentifier := token.getD [] }, e1 ++ e2)
 
 def initCall (args : List Bytes) : Except Err (State × List Ev) :=
